@@ -5,7 +5,8 @@ selector looks at every field (R1); holiday selectors see only, and the right, c
 calendar, shifted by the rule's offset (R2); time spans are projected through every field that
 carries meaning (R3); the midnight spill is cut at 24:00 and shifted by exactly one day (R4);
 overlapping time spans of one rule are merged keeping the farther end (R5); the nth-of-month
-index expressions are ceil(d/7)-1 and ceil((n-d+1)/7)-1 on their whole finite domain (R6).
+index expressions are ceil(d/7)-1 and ceil((n-d+1)/7)-1 on their whole finite domain (R6); weekday date offsets move to the nearest such weekday in the
+right direction for all 49 (weekday, target) pairs (R7).
 Not decided: selector arithmetic (steps, offsets, wrapping, leap days, Easter, ISO weeks),
 overlay of normal/additional/closed/fallback rules - values.
 """
@@ -237,3 +238,63 @@ def run(ctx, prog, res):
     r6.check(len(date_args) == 1 and wd, {"day_month_length_weekday_taken_from": sorted(date_args)}, "C01.R6:same-date",
              "day of month, month length and weekday are not all taken from the same date: %s" % sorted(date_args), lib.where_of(wf))
     r6.floor(3)
+
+    # R7 -------------------------------------------------------------------------------------
+    r7 = res.rule("C01.R7", "weekday date offsets (`Jun 7+Tu`, `Oct 31-Su`): `+wd` moves forward to the nearest such weekday (0..6 days, staying put when the date already is one), `-wd` backward; the day counts added / subtracted in DateOffset::apply (extracted from MIR as terms over the date's weekday and the target) are evaluated for all 49 (weekday, target) pairs")
+    ap = prog.require_fn(DAY + "DateOffset::apply")
+    WD = ["Mon", "Tue", "Wed", "Thu", "Fri", "Sat", "Sun"]
+    seen_variants = set()
+    for bb, t in ap.calls():
+        nm = flow.call_name(t)
+        mm = re.search(r"NaiveDate as core::ops::arith::(AddAssign|SubAssign|Add|Sub)<chrono::time_delta::TimeDelta>", nm)
+        if not mm:
+            continue
+        sh = flow.shape(ap, t["args"][1], depth=14)
+        mv = re.search(r"wday_offset@(Next|Prev)", sh)
+        if not mv:
+            continue
+        variant, direction = mv.group(1), (1 if mm.group(1).startswith("Add") else -1)
+        seen_variants.add(variant)
+        try:
+            tree = terms.parse(sh)
+            if not (tree[0] == "app" and tree[1] == "TimeDelta::days" and len(tree[2]) == 1):
+                raise terms.TermError("the shift is not TimeDelta::days(expr)")
+            expr = tree[2][0]
+            bad = None
+            for w in range(7):
+                for tg in range(7):
+                    def val(n):
+                        if n[0] == "app" and n[1].endswith("::weekday") and len(n[2]) == 1:
+                            return w
+                        if n[0] == "var" and re.search(r"wday_offset@(Next|Prev)\.0$", n[1]):
+                            return tg
+                        if n[0] == "var" and re.fullmatch(r"Weekday::(\w+)\{\}", n[1]):
+                            return WD.index(re.fullmatch(r"Weekday::(\w+)\{\}", n[1]).group(1))
+                        return None
+
+                    def leaf(n):
+                        if n[0] == "app" and n[1].split("::")[-1] == "days_since" and len(n[2]) == 2:
+                            a, b = val(n[2][0]), val(n[2][1])
+                            if a is None or b is None:
+                                raise terms.TermError("days_since of %r" % (n[2],))
+                            return (a - b) % 7
+                        if n[0] == "app" and n[1].split("::")[-1] in ("num_days_from_monday",) and len(n[2]) == 1 and val(n[2][0]) is not None:
+                            return val(n[2][0])
+                        return None
+                    d = terms.evaluate(expr, leaf)
+                    ok = 0 <= d <= 6 and (w + direction * d) % 7 == tg
+                    if not ok and bad is None:
+                        bad = (WD[w], WD[tg], d)
+            right_dir = (variant == "Next") == (direction == 1)
+            if not right_dir:
+                msg = "moves %s" % ("forward" if direction == 1 else "backward")
+            elif bad is not None:
+                msg = "a %s shifted to the %s %s moves by %d day(s) (expected the nearest such weekday, 0..6 days away): %s" % (bad[0], "next" if variant == "Next" else "previous", bad[1], bad[2], sh)
+            else:
+                msg = ""
+            r7.check(bad is None and right_dir, {"offset": "+wd" if variant == "Next" else "-wd", "moves": "forward" if direction == 1 else "backward", "by": sh[:200], "evaluated_pairs": 49}, "C01.R7:%s" % variant,
+                     "DateOffset::apply for `%swd`: %s" % ("+" if variant == "Next" else "-", msg), lib.where_of(ap, t))
+        except terms.TermError as e:
+            r7.fail("C01.R7:%s:unmodelled" % variant, "the weekday shift of DateOffset::apply is computed by an expression outside the modelled arithmetic (%s): %s" % (e, sh), lib.where_of(ap, t))
+    r7.check(seen_variants == {"Next", "Prev"}, {"variants_with_a_shift": sorted(seen_variants)}, "C01.R7:variants", "DateOffset::apply shifts the date for %s (expected Next and Prev)" % sorted(seen_variants), lib.where_of(ap))
+    r7.floor(3)
